@@ -52,7 +52,8 @@ def relay_states():
 def destinations():
     from hypothesis import strategies as st
     base = st.sampled_from(['https://sp.example.org/acs', 'https://idp.example.org:8443/sso/redirect', 'http://localhost/a/b'])
-    q = st.one_of(st.just(''), st.sampled_from(['?x=1', '?x=1&y=2', '?a=b%20c', '?SAMLRequest=old', '?k=']))
+    # '?sls' / '?acs&x=1': value-less parameters, as PHP toolkits register their endpoints
+    q = st.one_of(st.just(''), st.sampled_from(['?x=1', '?x=1&y=2', '?a=b%20c', '?SAMLRequest=old', '?k=', '?sls', '?acs&x=1']))
     return st.tuples(base, q).map(lambda t: t[0] + t[1])
 
 
@@ -206,17 +207,20 @@ def run_redirect(case):
     parts = urlsplit(loc)
     if parts.fragment:
         raise Violation('redirect-fragment', 'Location has a fragment: %r' % parts.fragment[:60])
+    # the destination (with whatever query it has) is kept verbatim (checked above); what follows it are the appended parameters
+    added = loc[len(dest):]
+    glue = '&' if '?' in dest else '?'
+    if not added.startswith(glue):
+        raise Violation('redirect-query-malformed', 'after the destination %r the URL continues with %r' % (dest, added[:40]))
     try:
-        got = parse_qsl(parts.query, keep_blank_values=True, strict_parsing=True)
+        got = parse_qsl(added[1:], keep_blank_values=True, strict_parsing=True)
     except ValueError as e:
-        raise Violation('redirect-query-malformed', 'query does not parse strictly: %r (%s)' % (parts.query[:120], e))
-    pre = parse_qsl(urlsplit(dest).query, keep_blank_values=True) if urlsplit(dest).query else []
-    exp_keys = [k for k, v in pre] + [typ] + (['RelayState'] if rs else [])
+        raise Violation('redirect-query-malformed', 'appended query does not parse strictly: %r (%s)' % (added[:120], e))
+    pre = [1] if urlsplit(dest).query else []
+    exp_keys = [typ] + (['RelayState'] if rs else [])
     if [k for k, v in got] != exp_keys:
         raise Violation('redirect-params', 'parameters %r, expected %r (RelayState %r)' % ([k for k, v in got], exp_keys, rs[:60]))
-    if got[:len(pre)] != pre:
-        raise Violation('redirect-dest-params', 'destination parameters changed: %r vs %r' % (got[:len(pre)], pre))
-    d = dict(got[len(pre):])
+    d = dict(got)
     if rs and d['RelayState'] != rs:
         raise Violation('redirect-relaystate', 'RelayState %r came back as %r' % (rs[:80], d['RelayState'][:80]))
     try:
@@ -383,13 +387,14 @@ def run_artifact(case):
     info = e.apply_binding(BINDING_HTTP_ARTIFACT, art, dest, case['rs'], response=case['typ'] == 'SAMLResponse')
     if not info['url'].startswith(dest):
         raise Violation('artifact-destination', 'URL %r does not extend destination %r' % (info['url'][:80], dest))
-    parts = urlsplit(info['url'])
+    added = info['url'][len(dest):]
+    if not added.startswith('&' if '?' in dest else '?'):
+        raise Violation('artifact-url', 'after the destination %r the URL continues with %r' % (dest, added[:40]))
     try:
-        got = parse_qsl(parts.query, keep_blank_values=True, strict_parsing=True)
+        got = parse_qsl(added[1:], keep_blank_values=True, strict_parsing=True)
     except ValueError as ex:
-        raise Violation('artifact-url', 'query of %r does not parse strictly: %s' % (info['url'][:120], ex))
-    pre = parse_qsl(urlsplit(dest).query, keep_blank_values=True) if urlsplit(dest).query else []
-    exp = pre + [('SAMLart', art)] + ([('RelayState', case['rs'])] if case['rs'] else [])
+        raise Violation('artifact-url', 'appended query of %r does not parse strictly: %s' % (info['url'][:120], ex))
+    exp = [('SAMLart', art)] + ([('RelayState', case['rs'])] if case['rs'] else [])
     if got != exp:
         raise Violation('artifact-url', 'query %r expected %r' % (got[:3], exp[:3]))
     if e.artifact[dict(got)['SAMLart']] != msg:
